@@ -29,7 +29,7 @@ for c in $checks; do
   res="$res $c:violation_lines=$nv,failing_input=$((1-nf))"
   echo "  check $c -> $nv violation line(s)  $line"
 done
-git -C /repo worktree remove --force $run/repo
+cd /verif; git -C /repo worktree remove --force $run/repo
 rm -rf $run
 python3 - "$dst" "$d0" "$d1" "$t" "$res" <<'PY'
 import json,sys
